@@ -21,6 +21,9 @@ def run(ck: Checker) -> None:
     ck.guard("R-ACCESSOR-SIBLING", lambda: T.r_accessor_sibling(ck))
     ck.guard("R-ORDER-KEY", lambda: T.r_order_key(ck))
     ck.guard("R-ORDER-KEY", lambda: T.r_gen_stateless(ck))
+    ck.guard("R-ORDER-KEY", lambda: T.r_field_order(ck))
+    from . import state_rules as S
+    ck.guard("R-TYPES-CACHE", lambda: S.r_class_attr_cache(ck, "R-TYPES-CACHE", ("pyoak.node", "pyoak.types", "pyoak.typing")))
     ck.guard("R-REINSTALL", lambda: T.r_reinstall(ck))
     ck.guard("R-PRESENCE", lambda: T.r_presence(ck))
     ck.guard("R-PRESENCE", lambda: T.r_child_abc(ck))
